@@ -79,8 +79,9 @@ char const *const KNOWN_CONFIG =
     "colvar {\n  name d\n  width 0.5\n  lowerBoundary 0.0\n  upperBoundary 6.0\n"
     "  distance {\n    group1 { atomNumbers 1 2 }\n    group2 { atomNumbers 3 4 }\n  }\n}\n"
     "colvar {\n  name v\n  distanceVec {\n    group1 { atomNumbers 5 }\n    group2 { atomNumbers 6 7 }\n  }\n}\n"
-    "harmonic {\n  name h\n  colvars v\n  centers (1.0, 0.0, 0.5)\n  forceConstant 2.0\n}\n"
-    "metadynamics {\n  name m\n  colvars d\n  hillWeight 0.1\n  hillWidth 1.0\n  newHillFrequency 1\n}\n";
+    // default names (harmonic1, metadynamics1): they depend on the per-type counters that cv reset must clear
+    "harmonic {\n  colvars v\n  centers (1.0, 0.0, 0.5)\n  forceConstant 2.0\n}\n"
+    "metadynamics {\n  colvars d\n  hillWeight 0.1\n  hillWidth 1.0\n  newHillFrequency 1\n}\n";
 
 char const *const MEM_CONF =
     "colvar {\n  name w\n  angle {\n    group1 { atomNumbers 8 }\n    group2 { atomNumbers 9 }\n"
@@ -107,7 +108,7 @@ std::map<std::string, stat_t> stats;
 long n_inputs = 0, n_commands = 0, n_steps = 0;
 
 char const *const OBJ_COLVARS[] = {"d", "v"};
-char const *const OBJ_BIASES[] = {"h", "m"};
+char const *const OBJ_BIASES[] = {"harmonic1", "metadynamics1"};
 
 
 void build_values()
@@ -120,7 +121,7 @@ void build_values()
       // junk
       "", "abc", " ", "\n", "\"", "\"unterminated", "\"a\" \"b\"", "%s%n%s", "\xff\xfe\xfd", "{", "}", "# x",
       // object and keyword names
-      "d", "v", "h", "m", "w", "nope", "colvars", "biases", "colvar", "bias", "help", "cv",
+      "d", "v", "harmonic1", "metadynamics1", "w", "nope", "colvars", "biases", "colvar", "bias", "help", "cv",
       // feature names and switches
       "active", "awake", "gradient", "collect_gradient", "total_force", "apply_force", "output_value",
       "scalar", "linear", "periodic", "apply_bias", "output_energy", "step_zero_data", "extended_Lagrangian",
@@ -155,7 +156,7 @@ void build_values()
       " distance {\n group1 { atomNumbers 15 }\n group2 { atomNumbers 16 }\n }\n}\n",
       // state fragments
       "configuration {\n step 5\n dt 1.0\n version 2023-01-01\n}\n",
-      "colvar {\n name d\n x 1.0\n}\n", "metadynamics {\n configuration {\n step 3\n name m\n}\n hill {\n step 1\n weight 0.1\n centers 1.0\n widths 0.5\n}\n}\n",
+      "colvar {\n name d\n x 1.0\n}\n", "metadynamics {\n configuration {\n step 3\n name metadynamics1\n}\n hill {\n step 1\n weight 0.1\n centers 1.0\n widths 0.5\n}\n}\n",
   };
   for (char const *s : fixed) values.push_back(s);
   values.push_back(std::string(5000, 'x'));
@@ -276,17 +277,19 @@ int run_cmd(std::vector<std::string> const &args, std::string *result)
   scribble_stack();
   std::vector<unsigned char *> argv;
   for (auto const &w : args) argv.push_back(reinterpret_cast<unsigned char *>(const_cast<char *>(w.c_str())));
+  if (trace) {
+    // printed before the call, so that the command that crashes is the last line of the trace
+    std::string line = "FZ_SCRIPT cmd [";
+    for (size_t i = 0; i < args.size(); i++) line += (i ? "," : "") + jesc(args[i], 200);
+    fprintf(stderr, "%s]\n", line.c_str());
+  }
   // as the Tcl front end does before every command
   cvm::clear_error();
   int const rc = run_colvarscript_command(int(argv.size()), argv.data());
   char const *res = get_colvarscript_result();
   if (result) *result = res ? res : "";
   if (trace) {
-    std::string line = "FZ_SCRIPT cmd [";
-    for (size_t i = 0; i < args.size(); i++) line += (i ? "," : "") + jesc(args[i], 200);
-    line += "] rc=" + std::to_string(rc) + " err=" + std::to_string(cvm::get_error()) + " res=" +
-            jesc(res ? res : "", 120);
-    fprintf(stderr, "%s\n", line.c_str());
+    fprintf(stderr, "FZ_SCRIPT   -> rc=%d err=%d res=%s\n", rc, cvm::get_error(), jesc(res ? res : "", 120).c_str());
   }
   return rc;
 }
@@ -449,6 +452,13 @@ extern "C" int LLVMFuzzerInitialize(int *, char ***)
     reference_digest = epilogue(px);
     delete_engine(px);
     clean_scratch();
+    // on a pristine module the epilogue itself must succeed
+    if (reference_digest.find("reset rc=0 err=0\nconfig rc=0 err=0 ncv=2 nbias=2\nstep rc=0 err=0 ") != 0 ||
+        reference_digest.find("errors:") != std::string::npos) {
+      fprintf(stderr, "FZ_SCRIPT REFERENCE EPILOGUE FAILED\n%s", reference_digest.c_str());
+      fflush(stderr);
+      abort();
+    }
   }
   trace = getenv("FZ_SCRIPT_TRACE") != nullptr;   // (the reference epilogue above is not traced)
   if (getenv("FZ_SCRIPT_DUMP")) {
@@ -459,7 +469,7 @@ extern "C" int LLVMFuzzerInitialize(int *, char ***)
     }
     s += "],\"values\":[";
     for (size_t i = 0; i < values.size(); i++) s += std::string(i ? "," : "") + jesc(values[i]);
-    s += "],\"colvars\":[\"d\",\"v\"],\"biases\":[\"h\",\"m\"],\"natoms\":" + std::to_string(NATOMS) +
+    s += "],\"colvars\":[\"d\",\"v\"],\"biases\":[\"harmonic1\",\"metadynamics1\"],\"natoms\":" + std::to_string(NATOMS) +
          ",\"config\":" + jesc(KNOWN_CONFIG) + ",\"reference\":" + jesc(reference_digest) + "}";
     printf("%s\n", s.c_str());
     fflush(stdout);
